@@ -1120,6 +1120,7 @@ def size_alphabet(tier):
 
 
 HY_MAX = 2 ** 13 + 2 ** 12 + 3     # 12291 rays
+HY_MAX_T = 2 ** 14 + 2 ** 13 + 3   # 24579 rays
 HUGE = 2 ** 20 + 1           # one bundle beyond 2^20 rays (the module's own benchmark note speaks of batches of a million)
 
 
@@ -1192,21 +1193,25 @@ def run_bundlesize(case, seed, R):
 
 
 def bundlesize_cases(tier):
-    """All bundle x prescription pairs up to HY_MAX rays with the repeated-call hygiene variants (they cost ~10 traces); beyond that
-    quick runs the two pairs that together contain both bundles and both prescriptions, one call each."""
+    """All bundle x prescription pairs up to HY_MAX (quick) / HY_MAX_T (thorough) rays with the repeated-call hygiene variants (they
+    cost ~10 traces); beyond that a set of pairs that together contains every bundle and every prescription, one call each."""
     kinds = ['cone', 'converging'] + (['collimated'] if tier == 'thorough' else [])
     press = ['mirror', 'singlet'] + (['two-mirror'] if tier == 'thorough' else [])
+    hymax = HY_MAX if tier == 'quick' else HY_MAX_T
+    big = [('cone', 'singlet'), ('converging', 'mirror')]
+    if tier == 'thorough':
+        big += [('cone', 'mirror'), ('converging', 'singlet'), ('collimated', 'two-mirror')]
     out = []
     for N in size_alphabet(tier):
         for b in kinds:
             for p_ in press:
-                if tier == 'quick' and N > HY_MAX and (b, p_) not in (('cone', 'singlet'), ('converging', 'mirror')):
+                if N > hymax and (b, p_) not in big:
                     continue
-                out.append({'N': N, 'bundle': b, 'pres': p_, 'hygiene': bool(N <= HY_MAX or tier == 'thorough'), 'direct': True})
+                out.append({'N': N, 'bundle': b, 'pres': p_, 'hygiene': bool(N <= hymax), 'direct': True})
     if tier == 'quick':
         out.append({'N': HUGE, 'bundle': 'converging', 'pres': 'mirror', 'hygiene': False, 'direct': False})
     else:
-        out += [{'N': HUGE, 'bundle': b, 'pres': p_, 'hygiene': True, 'direct': True} for b in kinds[:2] for p_ in press[:2]]
+        out += [{'N': HUGE, 'bundle': b, 'pres': p_, 'hygiene': (b, p_) == ('converging', 'singlet'), 'direct': True} for b in kinds[:2] for p_ in press[:2]]
     return out
 
 
@@ -1446,7 +1451,9 @@ def plan(tier, seed):
                   'ellipsoidal mirror, singlet of a refracting sphere + tilted decentred refracting paraboloid (the second surface meets directions bent by the first)[, thorough: two '
                   'mirrors, the second a tilted off-axis paraboloid met travelling -z]}; ONE raytrace call per case and EVERY ray (in particular the last ones) judged on every clause of the hop oracle; '
                   'plus intersect() called directly with the same rays in the local frame of the first surface (point on surface / on the ray / equal to the reference root, direction of '
-                  'the returned normal).  One bundle of 2^20 + 1 rays (quick: converging beam on the mirror, without the repeated-call hygiene variants; thorough: 2 bundles x 2 prescriptions with them).  '
+                  'the returned normal).  Up to 12291 rays (thorough: 24579) all bundle x prescription pairs run with the repeated-call hygiene variants; above, quick runs (cone, singlet) and '
+                  '(converging, mirror) [thorough: 5 pairs covering every bundle and prescription] with one call each.  One bundle of 2^20 + 1 rays (quick: converging beam on the mirror, raytrace only; '
+                  'thorough: 2 bundles x 2 prescriptions, one of them with the hygiene variants).  '
                   'This unit is not closed over the data dimension: block sizes that are not near these counts, or beyond 2^20 rays, are not enumerated; Q-type surfaces are not traced at these sizes', reset=rs_, chunk=1),
         ScopeUnit('far', far_cases(tier), run_far,
                   'ray origins far from the surface: the 100-ray bundle launched |Z0| in {1e3, 1e7} (thorough: also 1e5, 1e9) before and after the local z=0 plane (both directions of '
